@@ -176,7 +176,8 @@ def run_s2c(prop, tier, seed, opts):
             total_distinct += res["distinct"]
             obs_path = scratch.path("obs-%s.ndjson" % st["name"]) if st.get("trace") else None
             results = V.replay(harness, res["cases"], scratch.path("res-%s.ndjson" % st["name"]),
-                               limit=st.get("limit", "5s"), obs_path=obs_path, cmd=st.get("cmd", "replay"))
+                               limit=st.get("limit", "5s"), obs_path=obs_path, cmd=st.get("cmd", "replay"),
+                               extra_args=st.get("args", spec.get("args", ())))
             trace_info = None
             if st.get("trace"):
                 # code -> spec: TLC validates what the implementation produced
